@@ -10,6 +10,7 @@ import SmsVerif.Driver.Framing
 import SmsVerif.Driver.Receipt
 import SmsVerif.Driver.Validity
 import SmsVerif.Driver.Text
+import SmsVerif.Driver.Batch
 open SmsVerif SmsVerif.Driver
 
 def dispatch (line : String) : String :=
@@ -20,6 +21,7 @@ def dispatch (line : String) : String :=
   | "dec" :: toks => (handleDec toks).getD "bad-op"
   | "decalloc" :: toks => (handleDecAlloc toks).getD "bad-op"
   | ["pdus"] => handlePdus
+  | "batch" :: toks => (handleBatch toks).getD "bad-op"
   | "text" :: toks => (handleText toks).getD "bad-op"
   | "validity" :: toks => (handleValidity toks).getD "bad-op"
   | "receipt" :: toks => (handleReceipt toks).getD "bad-op"
